@@ -223,16 +223,18 @@ Fixpoint digits (fuel n : nat) (acc : str) : str :=
   end.
 Definition jnum (neg : bool) (n : nat) : str := (if neg then ["-"%char] else []) ++ digits (S n) n [].
 
+Fixpoint smap_entries (d : nat) (l : list (str * str)) : str :=
+  match l with
+  | [] => []
+  | (k, v) :: r => match r with
+                   | [] => indent (S d) ++ jstr k ++ s2l ": " ++ jstr v ++ [nlc]
+                   | _ => indent (S d) ++ jstr k ++ s2l ": " ++ jstr v ++ ","%char :: nlc :: smap_entries d r
+                   end
+  end.
 Definition render_smap (d : nat) (l : list (str * str)) : str :=
   match l with
   | [] => s2l "{}"
-  | _ => "{"%char :: nlc ::
-         (fix go (l : list (str * str)) : str :=
-            match l with
-            | [] => []
-            | [(k, v)] => indent (S d) ++ jstr k ++ s2l ": " ++ jstr v ++ [nlc]
-            | (k, v) :: r => indent (S d) ++ jstr k ++ s2l ": " ++ jstr v ++ ","%char :: nlc :: go r
-            end) l ++ indent d ++ ["}"%char]
+  | _ => "{"%char :: nlc :: smap_entries d l ++ indent d ++ ["}"%char]
   end.
 
 Fixpoint jrender (d : nat) (r : jrec) : str :=
@@ -242,8 +244,10 @@ Fixpoint jrender (d : nat) (r : jrec) : str :=
     let fix ups (l : list (str * jrec)) : str :=
         match l with
         | [] => []
-        | [(k, u)] => indent (S (S d)) ++ jstr k ++ s2l ": " ++ jrender (S (S d)) u ++ [nlc]
-        | (k, u) :: r => indent (S (S d)) ++ jstr k ++ s2l ": " ++ jrender (S (S d)) u ++ ","%char :: nlc :: ups r
+        | (k, u) :: r => match r with
+                         | [] => indent (S (S d)) ++ jstr k ++ s2l ": " ++ jrender (S (S d)) u ++ [nlc]
+                         | _ => indent (S (S d)) ++ jstr k ++ s2l ": " ++ jrender (S (S d)) u ++ ","%char :: nlc :: ups r
+                         end
         end in
     "{"%char :: nlc ::
     line "ID"%string (jstr id) ++ line "ProcessName"%string (jstr proc) ++ line "Command"%string (jstr cmd) ++
